@@ -370,7 +370,8 @@ OpStep(e) ==
              \cup (IF ~chkDrops THEN {<<"dropped elements differ from the abstract specification", {"C03", "C04"}>>} ELSE {})
              \cup (IF ~chkFresh THEN {<<"an object created during the call is neither stored nor dropped (leak)", {"C03", "C04"} \cup opp>>} ELSE {})
              \cup (IF ~chkLen THEN {<<"len()/capacity() contract", {"C08"} \cup opp>>} ELSE {})
-             \cup (IF ~chkAlloc THEN {<<"allocator ledger / allocation_size", {"C03", "C08", "C13"} \cup (IF e.op = "drain" THEN {"C10"} ELSE {})>>} ELSE {})
+             \cup (IF ~chkAlloc THEN {<<"allocator ledger / allocation_size (size or alignment of a live block differs from the table layout)",
+                                       {"C02", "C03", "C08", "C13"} \cup (IF e.op = "drain" THEN {"C10"} ELSE {})>>} ELSE {})
              \cup (IF ~chkChurn THEN {<<"allocation grew beyond 16x the space needed for the live-size bound under insert/remove churn", {"C13"}>>} ELSE {})
              \cup (IF ~chkNoAlloc THEN {<<"allocation although len < capacity", {"C08"}>>} ELSE {})
              \cup (IF ~chkReserve THEN {<<"capacity contract of " \o e.op, {"C08"} \cup (IF e.op = "try_reserve" THEN {"C12"} ELSE {})
